@@ -474,6 +474,9 @@ func amlObservation(tree *ObjectTree, outcome string, bases []uintptr, tlens []i
 type amlItem struct {
 	id     string
 	tables [][]byte
+	// contErr: keep parsing the following tables with the same Parser after one was rejected with the
+	// parse error (the default stops at the first table that is not accepted)
+	contErr bool
 	// filled by the runner: one observation per table actually parsed
 	obs []string
 }
@@ -519,12 +522,14 @@ func amlChildMain() {
 	for sc.Scan() {
 		parts := strings.Split(sc.Text(), " ")
 		ci := parts[0]
+		cont := strings.HasPrefix(ci, "c")
+		ci = strings.TrimPrefix(ci, "c")
 		sess := amlNewSession()
 		for ti, hx := range parts[1:] {
 			fmt.Fprintf(out, "S %s %d\n", ci, ti)
 			o := sess.observe(uint8(ti+1), amlUnhex(hx))
 			fmt.Fprintf(out, "O %s %d %s\n", ci, ti, o)
-			if !strings.HasPrefix(o, "ok ") {
+			if !strings.HasPrefix(o, "ok ") && !(cont && strings.HasPrefix(o, "err ")) {
 				break
 			}
 		}
@@ -551,6 +556,9 @@ func amlRunChild(items []*amlItem, from int, perInput time.Duration) (next int, 
 	bpath := filepath.Join(dir, fmt.Sprintf("aml-batch-%d-%d.txt", os.Getpid(), seq))
 	var bb bytes.Buffer
 	for i := from; i < len(items); i++ {
+		if items[i].contErr {
+			bb.WriteByte('c')
+		}
 		fmt.Fprintf(&bb, "%d", i)
 		for _, t := range items[i].tables {
 			bb.WriteByte(' ')
@@ -687,7 +695,7 @@ func amlRunItems(items []*amlItem, perInput time.Duration) {
 				}
 				// confirm alone
 				it := part[next]
-				solo := &amlItem{id: it.id, tables: it.tables}
+				solo := &amlItem{id: it.id, tables: it.tables, contErr: it.contErr}
 				n2, crash2 := amlRunChild([]*amlItem{solo}, 0, perInput)
 				if crash2 == "" && n2 == 1 {
 					// did not reproduce alone: report as flaky with the batch's kind
@@ -718,6 +726,24 @@ func amlPrintFacts(out io.Writer, ns string) {
 	p("def extOpPrefix : Nat := %d\n", extOpPrefix)
 	p("def flagNamed : Nat := %d\ndef flagConstant : Nat := %d\ndef flagReference : Nat := %d\ndef flagCreate : Nat := %d\n", pOpFlagNamed, pOpFlagConstant, pOpFlagReference, pOpFlagCreate)
 	p("def flagExecutable : Nat := %d\ndef flagScoped : Nat := %d\ndef flagDeferParsing : Nat := %d\n", pOpFlagExecutable, pOpFlagScoped, pOpFlagDeferParsing)
+	{ // what Parser.init leaves of a Parser that was used before (a rejected table leaves its stacks behind)
+		tree := NewObjectTree()
+		tree.CreateDefaultScopes(0)
+		ps := NewParser(ioutil.Discard, tree)
+		ps.scopeStack = []uint32{1, 2, 3}
+		ps.pkgEndStack = []uint32{7, 8}
+		ps.resolvePasses, ps.mergedScopes, ps.relocatedObjects = 9, 9, 9
+		ps.mode = parseModeAllBlocks
+		ps.tableHandle = 77
+		stream := amlStream(nil)
+		ps.init(5, "DSDT", (*table.SDTHeader)(unsafe.Pointer(&stream[0])))
+		mode := 0
+		if ps.mode == parseModeAllBlocks {
+			mode = 1
+		}
+		p("def initFromDirty : List Nat := [%d, %d, %d, %d, %d, %d, %d, %d, %d, %d]\n", len(ps.scopeStack), len(ps.pkgEndStack),
+			ps.resolvePasses, ps.mergedScopes, ps.relocatedObjects, mode, ps.tableHandle, ps.streamEnd, ps.r.offset, ps.r.pkgEnd)
+	}
 	argNames := []struct {
 		n string
 		v pArgType
